@@ -17,7 +17,8 @@ theorem Inv.quiet_step {c : Cfg} {o : Orders} {s s' : State} {t : Nat} (inv : In
     (hhist : ∀ l, (∀ k, l ≠ .cl k) → s'.mem.hist l = s.mem.hist l)
     (hlt : s'.lt = s.lt) (hown : s'.own = s.own) (htslot : s'.tslot = s.tslot) (hfv : s'.fv = s.fv)
     (hpub : s'.pub = s.pub) (hav : s'.av = s.av) (hpv : s'.pv = s.pv) (htkv : s'.tkv = s.tkv)
-    (hrecl : s'.recl = s.recl)
+    (hrecl : ∀ e, s'.recl e = true → s.recl e = true ∨
+      ((∃ W, s.tkv e = some W) ∧ ∀ i V, s.fv i = some V → s.pv e ≤ V))
     (hsv : ∀ t', t' ≠ t → s'.sv t' = s.sv t') (hpcs : ∀ t', t' ≠ t → s'.pc t' = s.pc t')
     (hcr : ∀ i, (s'.pc t).crAt i = (s.pc t).crAt i) (hlk : ∀ i, (s'.pc t).lkAt i = (s.pc t).lkAt i)
     (hlk3 : ∀ i, (s'.pc t).lk3At i = (s.pc t).lk3At i)
@@ -80,9 +81,10 @@ theorem Inv.quiet_step {c : Cfg} {o : Orders} {s s' : State} {t : Nat} (inv : In
     rw [hlt]
     exact inv.depth i h1 (pcAll Pc.lkAt i hlk h2)
   · intro e h
-    rw [hrecl] at h
     rw [htkv, hfv, hpv]
-    exact inv.recl e h
+    rcases hrecl e h with h | h
+    · exact inv.recl e h
+    · exact h
   · intro t'
     by_cases e : t' = t
     · subst e; exact hpc
